@@ -13,19 +13,31 @@
 (*  Poll      the optimizer scans its futures IN SUBMISSION ORDER and      *)
 (*            reports the first one that is done; `best` is replaced only  *)
 (*            by a strictly smaller score                                  *)
+(*  Check     after every report the search loop evaluates its stopping    *)
+(*            rule (max_time = seconds | "rate:r" | "equil:n"); when it    *)
+(*            fires the futures still in flight are cancelled and never    *)
+(*            reported.  The comparison with `best` comes BEFORE the check *)
+(*            (CheckFirst = TRUE is the wrong order, kept as a negative    *)
+(*            instance: the last recorded trial is then never compared).   *)
 (* Serial execution is the instance PreDispatch = 1.                       *)
 (***************************************************************************)
 EXTENDS Naturals, Sequences, FiniteSets, TLC
 CONSTANTS MaxRepeats, PreDispatch, Scores, Inf, MaxFail, MaxHist,
-          JIT   \* TRUE: workers finish one at a time, just before a poll (canonical schedules for replay)
+          JIT,  \* TRUE: workers finish one at a time, just before a poll (canonical schedules for replay)
+          StopRule,   \* "none" | "equil" (more than Amount reports since the last improvement) | "time" (any moment)
+          Amount,
+          CheckFirst  \* FALSE = the code; TRUE = stop rule evaluated before the comparison (negative instance)
 VARIABLES score,      \* [1..MaxRepeats -> Scores \cup {Inf}], chosen once (the trials' outcomes)
           submitted,  \* number of trials submitted so far
           inflight,   \* sequence of trial ids in submission order, not yet reported
           done,       \* set of in-flight trials whose worker has finished
           reported,   \* sequence of trial ids in the order they were reported
           best,       \* id of the best trial so far, 0 = none
+          since,      \* reports since `best` last improved (trials_since_best)
+          pending,    \* a report has been made whose stop check is still to come
+          stopped,    \* the stop rule fired
           hist        \* history variable (events), for replay on the real code
-vars == <<score, submitted, inflight, done, reported, best, hist>>
+vars == <<score, submitted, inflight, done, reported, best, since, pending, stopped, hist>>
 
 Ids == 1..MaxRepeats
 SeqSet(s) == {s[k] : k \in DOMAIN s}
@@ -34,21 +46,23 @@ Log(e) == hist' = IF MaxHist THEN Append(hist, e) ELSE hist
 Init == /\ score \in [Ids -> Scores \cup {Inf}]
         /\ Cardinality({i \in Ids : score[i] = Inf}) <= MaxFail
         /\ submitted = 0 /\ inflight = <<>> /\ done = {} /\ reported = <<>> /\ best = 0
+        /\ since = 0 /\ pending = FALSE /\ stopped = FALSE
         /\ hist = <<>>
 
 Submit ==
+    /\ ~stopped /\ ~pending
     /\ submitted < MaxRepeats
     /\ Len(inflight) < PreDispatch
     /\ submitted' = submitted + 1
     /\ inflight' = Append(inflight, submitted + 1)
-    /\ UNCHANGED <<score, done, reported, best>>
+    /\ UNCHANGED <<score, done, reported, best, since, pending, stopped>>
     /\ Log(<<"submit", submitted + 1>>)
 
 Complete(i) ==
     /\ i \in SeqSet(inflight) \ done
     /\ (~JIT \/ (done = {} /\ (Len(inflight) = PreDispatch \/ submitted = MaxRepeats)))
     /\ done' = done \cup {i}
-    /\ UNCHANGED <<score, submitted, inflight, reported, best>>
+    /\ UNCHANGED <<score, submitted, inflight, reported, best, since, pending, stopped>>
     /\ Log(<<"complete", i>>)
 
 (* the scan: first done future in list order *)
@@ -56,22 +70,40 @@ FirstDone == LET k == CHOOSE k \in DOMAIN inflight :
                          inflight[k] \in done /\ \A j \in 1..(k - 1) : inflight[j] \notin done
              IN  inflight[k]
 Better(i) == score[i] # Inf /\ (best = 0 \/ score[i] < score[best])
+Compare(i) == /\ best' = IF Better(i) THEN i ELSE best
+              /\ since' = IF Better(i) THEN 0 ELSE since + 1
 Poll ==
+    /\ ~stopped /\ ~pending
     /\ Len(inflight) = PreDispatch \/ submitted = MaxRepeats   \* only polls when the window is full or all submitted
     /\ done # {}
     /\ LET i == FirstDone IN
        /\ inflight' = SelectSeq(inflight, LAMBDA x : x # i)
        /\ done' = done \ {i}
-       /\ reported' = Append(reported, i)
-       /\ best' = IF Better(i) THEN i ELSE best
+       /\ reported' = Append(reported, i)     \* the generator records the trial (scores, costs) ...
+       /\ IF CheckFirst THEN UNCHANGED <<best, since>> ELSE Compare(i)   \* ... and the loop body compares it
        /\ Log(<<"report", i>>)
-    /\ UNCHANGED <<score, submitted>>
+    /\ pending' = TRUE
+    /\ UNCHANGED <<score, submitted, stopped>>
 
-Next == Submit \/ Poll \/ \E i \in Ids : Complete(i)
+(* the stopping rule, evaluated once per report *)
+Fires(b) == CASE StopRule = "none"  -> FALSE
+              [] StopRule = "equil" -> since > Amount
+              [] StopRule = "time"  -> b
+Check ==
+    /\ pending /\ pending' = FALSE
+    /\ \E b \in BOOLEAN :
+         IF Fires(b)
+         THEN /\ stopped' = TRUE /\ inflight' = <<>> /\ done' = {}      \* futures in flight are cancelled
+              /\ UNCHANGED <<best, since>> /\ Log(<<"stop", Len(reported)>>)
+         ELSE /\ (IF CheckFirst THEN Compare(reported[Len(reported)]) ELSE UNCHANGED <<best, since>>)
+              /\ UNCHANGED <<stopped, inflight, done, hist>>
+    /\ UNCHANGED <<score, submitted, reported>>
+
+Next == Submit \/ Poll \/ Check \/ \E i \in Ids : Complete(i)
 Spec == Init /\ [][Next]_vars /\ WF_vars(Next)
 
 (* ---- properties -------------------------------------------------------- *)
-Terminated == submitted = MaxRepeats /\ inflight = <<>>
+Terminated == stopped \/ (submitted = MaxRepeats /\ inflight = <<>> /\ ~pending)
 NoMoreThanRequested == submitted <= MaxRepeats /\ Len(reported) <= MaxRepeats
                        /\ Len(inflight) <= PreDispatch
 ReportedOnce == \A a, b \in DOMAIN reported : a # b => reported[a] # reported[b]
@@ -85,8 +117,15 @@ BestIsMin ==
          /\ \A k \in DOMAIN reported :
                (reported[k] \in Finite /\ score[reported[k]] = score[best])
                => \E j \in 1..k : reported[j] = best
+BestAtEnd == Terminated => BestIsMin
 FailuresIsolated == best # 0 => score[best] # Inf
-AllReported == Terminated => SeqSet(reported) = Ids
+AllReported == (Terminated /\ ~stopped) => SeqSet(reported) = Ids
+(* the loop stops only when its rule says so, and never runs on once it does *)
+StopJustified == (stopped /\ StopRule = "equil") => since > Amount
+NoOverrun     == (StopRule = "equil" /\ since > Amount) => (pending \/ stopped)
+NeverStops    == StopRule = "none" => ~stopped
+(* what was cancelled is never reported: nothing happens after the stop *)
+StoppedIsFinal == [][stopped => UNCHANGED <<reported, best, submitted>>]_vars
 Progress == <>Terminated
 EmitHist == Terminated => PrintT(<<"V", score, hist>>)
 =============================================================================
